@@ -289,7 +289,8 @@ func (r *ReconcileExperiment) ReconcileTrials(instance *experimentsv1beta1.Exper
 
 	parallelCount := *instance.Spec.ParallelTrialCount
 	activeCount := instance.Status.TrialsPending + instance.Status.TrialsRunning
-	completedCount := instance.Status.TrialsSucceeded + instance.Status.TrialsFailed + instance.Status.TrialsKilled + instance.Status.TrialsEarlyStopped
+	completedCount := instance.Status.TrialsSucceeded + instance.Status.TrialsFailed + instance.Status.TrialsKilled + instance.Status.TrialsEarlyStopped +
+		instance.Status.TrialMetricsUnavailable
 
 	if activeCount > parallelCount {
 		deleteCount := activeCount - parallelCount
